@@ -159,7 +159,7 @@ def h_inverse(ctx, insts, sym, vals=None, den=1):
         for j in range(i + 1, len(items)):
             (si, ai, di), (sj, aj, dj) = items[i], items[j]
             if insts[i][0] in ("V", "W") and insts[i][0] == insts[j][0]:
-                ctx.assume(si + di < sj or sj + dj < si)
+                ctx.assume(si + di <= sj or sj + dj <= si)
     plan = TimeTriggeredPlan(list(items), env)
     fwd = res.plan_forward_conversion(plan)
     ctx.check(isinstance(fwd, TimeTriggeredPlan), "forward:not-a-tt-plan", "plan_forward_conversion did not return a TimeTriggeredPlan")
